@@ -50,6 +50,7 @@ QUERIES = [
     ('select', "select a1, * where a2 == 'v1'"),
     ('select', 'select * order by a1 desc'),
     ('select', 'select distinct a2'),
+    ('select', 'select distinct a3'),
     ('select', 'select distinct count a2'),
     ('select', 'select top 2 *'),
     ('select', 'select distinct count *'),
@@ -95,6 +96,12 @@ QUERIES = [
     ('named_unknown', "update set a.tga = 'Q'"),
     ('named_unknown', 'select a.name, b.jvall join {J} on a.name == b.key'),
     ('named_unknown', 'select a["nmae"], a1'),
+    # the WITH modifier in the query text (header handling requested by the query, not by the caller)
+    ('with', 'select a1, a2 with (header)'),
+    ('with', 'select * with (noheader)'),
+    ('with', "update set a2 = 'Z' with (headers)"),
+    ('with', 'select a1, b2 join {J} on a2 == b1 with (header)'),
+    ('with', 'select distinct a3, a1 with (noheaders)'),
     ('mutating_expr', 'select a1 where [record_a.append(1)] is None'),
     ('mutating_expr', 'select star_fields.append(1)'),
 ]
@@ -256,6 +263,8 @@ class World(object):
                 # string / None cells, included because an in-place operation on such a cell is still a change of the source
                 for i, r in enumerate(self.A):
                     r[-1] = [r[0], 'w'] if i % 2 else [r[0], 'w', '']      # (some end in an empty string, as "a;b;".split(";") does)
+                    if i % 3 == 2:
+                        r[-1] = [[r[0], 'n'], ['w']]      # a list of lists (ARRAY_AGG over list-valued cells)
                 self.has_list_cells = True
             if q.get('tuple_rows'):
                 # records that are tuples (cursor.fetchall(), zip(...)): the containers themselves must be left alone too
